@@ -8,7 +8,7 @@ use dvh::qref::{self, check_contract, check_contract_gen, digits, Flag, ModeTag}
 use dvh::rng::Rng;
 use num_bigint::{BigInt, BigUint};
 use num_rational::BigRational;
-use num_traits::{One, Pow, Signed};
+use num_traits::{One, Pow, Signed, Zero};
 use std::cmp::Ordering;
 
 /// a significand with exactly `d` base-B digits (d >= 1)
@@ -83,8 +83,9 @@ fn run<Rm: ModeTag, const B: Word>(m: &mut Mon, r: &mut Rng) {
     let (ia, ib) = (BigInt::from(sa.clone()) * if na { -1 } else { 1 }, BigInt::from(sb.clone()) * if nb { -1 } else { 1 });
     let (qa, qb) = (q_of_parts(&ia, ea, base), q_of_parts(&ib, eb, base));
     let (ra, rb) = (Repr::<B>::new(ibig_of_int(&ia), ea as isize), Repr::<B>::new(ibig_of_int(&ib), eb as isize));
-    let opn = r.below(18);
+    let opn = r.below(20);
     let opname = match opn {
+        18 | 19 => "int_operand",
         16 | 17 => "near_half",
         0..=3 => "add",
         4..=6 => "sub",
@@ -230,6 +231,63 @@ fn run<Rm: ModeTag, const B: Word>(m: &mut Mon, r: &mut Rng) {
             let res = catch(|| ctx.cubic(&ra)).or_else(|p| fail("unexpected_panic", p))?;
             judge(&(&qa * &qa * &qa), &res, "cubic")
         }),
+        18 | 19 => {
+            // the FBig operators with an integer operand (primitive or big, on either side, by value or by reference;
+            // each a separate macro arm): the integer is an exact operand, the result obeys the contract at the
+            // precision it reports, which is at least the precision of the float operand
+            let fa = FBig::<Rm, B>::from_repr(ra.clone(), ctx);
+            let n_small: i64 = (sb.iter_u64_digits().next().unwrap_or(7) >> 44) as i64 * if nb { -1 } else { 1 };
+            let nbig = ibig_of_int(&ib);
+            let which = r.below(4);
+            let form = r.below(8);
+            let d2 = || format!("int_operand op#{} form#{} mode={} base={} p={} a={}*{}^{} n_small={} n_big={}", which, form, Rm::M.name(), base, p, ia, base, ea, n_small, ib);
+            m.check("int_operand", &format!("{}/b{}/{}/op{}", Rm::M.name(), base, pc, which), Some(h ^ 0x1e7 ^ (which << 3) ^ form), &d2, || {
+                macro_rules! app {
+                    ($op:tt) => {
+                        match form {
+                            0 => (catch(|| fa.clone() $op n_small), false, false),
+                            1 => (catch(|| &fa $op n_small), false, false),
+                            2 => (catch(|| n_small $op fa.clone()), true, false),
+                            3 => (catch(|| &n_small $op &fa), true, false),
+                            4 => (catch(|| fa.clone() $op nbig.clone()), false, true),
+                            5 => (catch(|| &fa $op &nbig), false, true),
+                            6 => (catch(|| nbig.clone() $op &fa), true, true),
+                            _ => (catch(|| &nbig $op &fa), true, true),
+                        }
+                    };
+                }
+                let (res, int_left, big) = match which {
+                    0 => app!(+),
+                    1 => app!(-),
+                    2 => app!(*),
+                    _ => app!(/),
+                };
+                let nq = if big { BigRational::from_integer(ib.clone()) } else { BigRational::from_integer(BigInt::from(n_small)) };
+                let (l, rr) = if int_left { (nq.clone(), qa.clone()) } else { (qa.clone(), nq.clone()) };
+                if which == 3 && rr.is_zero() {
+                    return match res {
+                        Err(_) => Ok(()),
+                        Ok(v) => fail("no_panic", format!("division by zero returned {}*{}^{}", v.repr().significand(), base, v.repr().exponent())),
+                    };
+                }
+                let v = res.or_else(|pn| fail("unexpected_panic", pn))?;
+                let x = match which {
+                    0 => &l + &rr,
+                    1 => &l - &rr,
+                    2 => &l * &rr,
+                    _ => &l / &rr,
+                };
+                let rp = v.precision();
+                if rp < p {
+                    return fail("precision", format!("result precision {} is below the precision {} of the float operand", rp, p));
+                }
+                let rq = q_of_repr(v.repr());
+                let rd = digits(&int_of(v.repr().significand()), base);
+                // the operators return a plain FBig: there is no flag to judge, only the side and the distance of the value
+                let flag = if rq == x { Flag::Exact } else if rq > x { Flag::AddOne } else { Flag::SubOne };
+                check_contract(&x, &rq, flag, rd, base, rp, Rm::M).or_else(|(k, d)| fail(k, format!("{} (result {}*{}^{} at precision {})", d, v.repr().significand(), base, v.repr().exponent(), rp)))
+            });
+        }
         16 | 17 => {
             // the discarded low part sits on / next to one half of the last kept digit: a (p digits) plus or minus a
             // k-digit tail L * B^(ea-k) with L in {floor(B^k/2) - 1, floor(B^k/2), floor(B^k/2) + 1}. In an odd
